@@ -28,7 +28,8 @@ LEVEL_NOTE = ("PARTIAL BY DESIGN: the theorems are about the numbers each writer
               "multiplexer conditions, rendering of factor/offset) is tested on real writer output by independent mini-parsers, not "
               "proved. Scapy, Wireshark and CANard are not installed: their reading conventions are transcriptions (listed under "
               "assumptions) and belong to the trusted base. Wireshark float fields (the writer itself says 'float decoding is corrupt') "
-              "are checked for position and width only.")
+              "are checked for position and width only. FIBEX is read with the convention of canmatrix's own importer; for multiplexed frames the "
+              "model keeps the writer's defect (failure classes fibex-mux-segment / fibex-mux-pdu-range, theorem ..._refuted next to ..._partial).")
 
 ASSUMPTIONS = [
     "numbering: LSB0 number n = byte n//8, bit n%8 from the byte's LSB; sequential MSB0 number p = byte p//8, bit 7-p%8; "
